@@ -6,7 +6,8 @@ mutate/unlink files. Does not decide: what recovery does with the bytes (value l
 import re
 
 from tmpl import (order_before, follows, done_sites, start_sites, gate_false_targets, gate_true_targets, who, site, suffix,
-                  flows_from, local_defs, origin_locals)
+                  flows_from, local_defs, origin_locals, pl_fields)
+from mir import operand_places
 
 SEC = 'storage::secondary::'
 COMMIT_INNER = SEC + 'transaction::SecondaryTransaction::commit_inner::{closure#0}'
@@ -413,3 +414,70 @@ def rule_r5(ctx, prog):
                    f'(blocks {[x.bb for x in ck]}): {member}', [site(b, c.bb)],
                    what='delete-vector files that the manifest no longer mentions survive a reopen while their ids are handed out again: '
                         'a later DELETE fails with AlreadyExists')
+
+    # R8 ----------------------------------------------------------------------------------------------
+    R8 = 'C04-R8'
+    ctx.rule(R8, 'Begin..End brackets make a multi-record transaction atomic: in Manifest::replay the vector that is returned receives '
+                 'records only in the End arm (from a staging buffer), or it is cut back to the last End (truncate) before it is '
+                 'returned; a record pushed straight into the result under Begin is applied even when its End never reached the disk')
+    rp = prog.body(REPLAY)
+    if ctx.anchor(R8, REPLAY, rp is not None):
+        ctx.functions_analysed.add(rp.name)
+        MANOP__ = 'storage::secondary::manifest::ManifestOperation'
+        sw = [(i, bl['term']) for i, bl in enumerate(rp.blocks) if bl['term']['k'] == 'switch' and bl['term'].get('adt') == MANOP__]
+        # the returned vector: operand of the Ok(..) aggregate assigned to _0
+        ret = set()
+        for bb, st in rp.stmts():
+            if st['s'] == 'assign' and st['lhs']['l'] == 0 and st['rv'].get('rv') == 'agg' and st['rv'].get('variant') == 'Ok':
+                for o in st['rv'].get('ops', []):
+                    if o['k'] != 'const' and 'Vec<' in rp.local_ty(o['pl']['l']) and 'ManifestOperation' in rp.local_ty(o['pl']['l']):
+                        ret |= {l for l in origin_locals(rp, o['pl']['l'], depth=3) if rp.local_ty(l) == rp.local_ty(o['pl']['l'])}
+        if ctx.anchor(R8, 'replay: match on ManifestOperation', sw) and ctx.anchor(R8, 'replay: returned vector', ret):
+            i, t = sw[0]
+            arms = {t['variants'][v]: tgt for v, tgt in t['targets'] if v in t.get('variants', {})}
+            others = {tgt for vv, tgt in arms.items() if vv != 'End'} | ({t['otherwise']} if t.get('otherwise') is not None else set())
+            end_region = rp.reachable_from([arms['End']], avoid=others | {i}) if 'End' in arms else set()
+            muts = []
+            for c in rp.calls:
+                if re.search(r'Vec::<.*>::(push|append|extend|extend_from_slice|insert)$|Extend::extend$', c.name or '') and c.args and c.args[0]['k'] != 'const' \
+                        and ret & origin_locals(rp, c.args[0]['pl']['l'], depth=3):
+                    muts.append(c)
+            cut = [c for c in rp.calls if re.search(r'Vec::<.*>::(truncate|drain|split_off)$', c.name or '') and c.args and c.args[0]['k'] != 'const'
+                   and ret & origin_locals(rp, c.args[0]['pl']['l'], depth=3)]
+            outside = [c for c in muts if c.bb not in end_region]
+            if ctx.anchor(R8, 'replay: writes into the returned vector', muts):
+                ctx.ob(R8, 'replay·unterminated-txn-dropped', not outside or bool(cut),
+                       f'writes into the returned vector: {[(c.bb, (c.fn or "").rsplit("::", 1)[-1]) for c in muts]}; End arm blocks '
+                       f'{sorted(end_region)[:6]}; outside the End arm: {[c.bb for c in outside]}; cut back before return: {[c.bb for c in cut]}',
+                       [site(rp, c.bb) for c in (outside or muts)],
+                       what='Manifest::replay returns the records of a transaction whose End was never written: a crash in the middle of a '
+                            'multi-record append (DELETE over two row-sets, DROP TABLE) is recovered half-applied')
+    boot_vacuum_always(ctx, prog, 'C04-R9')
+
+
+def boot_vacuum_always(ctx, prog, rid):
+    """shared with C03: the boot vacuum is unconditional on a real store"""
+    ctx.rule(rid, 'orphans are not only made by Delete* records: a transaction dropped after it flushed a row-set leaves a directory the '
+                  'manifest never heard of, and its id is handed out again after the next boot. So the boot vacuum runs on every boot '
+                  'of a real store: every successful path of bootstrap after Manifest::replay lists the storage directory (read_dir), '
+                  'the mock-manifest arm being the only accepted way around it')
+    b = prog.body(BOOTSTRAP)
+    if not ctx.anchor(rid, BOOTSTRAP, b is not None):
+        return
+    a = done_sites(prog, b, 'Manifest::replay')
+    if ctx.anchor(rid, 'bootstrap:Manifest::replay', a):
+        # `if !options.disable_all_disk_operation { vacuum }`: the arm taken when the flag is set skips the vacuum legitimately
+        mock = gate_true_targets(b, 'disable_all_disk_operation')
+        neg = []
+        for i, bl in enumerate(b.blocks):
+            t = bl['term']
+            if t['k'] != 'switch' or t['discr']['k'] == 'const':
+                continue
+            d = [st for st in bl['stmts'] if st['s'] == 'assign' and st['lhs']['l'] == t['discr']['pl']['l']]
+            if d and d[-1]['rv'].get('rv') == 'unop' and d[-1]['rv'].get('op') == 'Not':
+                src = [st for st in bl['stmts'] if st['s'] == 'assign' and st['lhs']['l'] in {p['l'] for p in operand_places(d[-1]['rv'])}]
+                if src and any(f.endswith('::disable_all_disk_operation') for p in operand_places(src[-1]['rv']) for f in pl_fields(p)):
+                    # `!flag`: the 0 target is the flag-is-set side, and nothing else may be tested in this block
+                    neg += [tgt for v, tgt in t['targets'] if v == '0']
+        follows(ctx, prog, rid, b, a, 'tokio::fs::read_dir', 'bootstrap:replay→read_dir',
+                what='Manifest::replay', allowed=list(mock) + neg)
